@@ -404,6 +404,7 @@ func checkC40(w *World, r *Run) {
 
 	// ---- 3. handler declares length
 	checkC40Handler(w, r, ruleLen)
+	checkCacheFillCompletion(w, r)
 	r.NotCovered("the interleavings with overwrite, delete and GC themselves; that an open file descriptor keeps delivering unlinked content (filesystem semantics); remote stores (sftp, cloud drives) changing content under a reader; truncation below the HTTP layer is detected by the client through the declared Content-Length, which the rules show is always declared before the body and that the body is copied with the exact count")
 }
 
